@@ -88,7 +88,7 @@ def history(dc, sc, res, rng, kind, cfg, label, scale):
             if kind == 'cache' and rng.random() < 0.5:
                 for _ in range(rng.randrange(1, 4)):
                     call('push', gen.pick(rng, vals), prefix=gen.pick(rng, [None, 'q']),
-                         expire=gen.pick(rng, [ttl, None, -1.5]))
+                         expire=gen.pick(rng, [ttl, None, -1.5, 0, 0.0]))
             # lookups while live, then after clock moves
             for move in (0, gen.TICK * 3, ttl / 2, ttl, 100.0):
                 if move:
@@ -104,11 +104,11 @@ def history(dc, sc, res, rng, kind, cfg, label, scale):
                     elif op == 'pop':
                         call('pop', k, 'DEF', expire_time=True)
                     elif op == 'touch':
-                        call('touch', k, gen.pick(rng, [None, ttl, -1.5, 0]))
+                        call('touch', k, gen.pick(rng, [None, ttl, -1.5, 0, 0.0]))
                     elif op == 'incr':
                         call('incr', k, 1, default=gen.pick(rng, [0, None, 5]))
                     elif op == 'add':
-                        call('add', k, 'again', expire=gen.pick(rng, [None, ttl]))
+                        call('add', k, 'again', expire=gen.pick(rng, [None, ttl, 0]))
                     elif op == 'set':
                         before = drv.culled_expired
                         call('set', 'w%d' % rng.randrange(5), 0)
@@ -119,7 +119,7 @@ def history(dc, sc, res, rng, kind, cfg, label, scale):
                     elif kind == 'cache':
                         if op == 'push':
                             call('push', k, prefix=gen.pick(rng, [None, 'q']), side=gen.pick(rng, ['front', 'back']),
-                                 expire=gen.pick(rng, [gen.ttl_exact(0.3), gen.ttl_exact(0.8), None]))
+                                 expire=gen.pick(rng, [gen.ttl_exact(0.3), gen.ttl_exact(0.8), None, 0]))
                         elif op == 'peekitem':
                             call('peekitem', last=rng.random() < 0.5, expire_time=True)
                         else:
